@@ -392,6 +392,11 @@ pub fn run(tier: Tier) -> i32 {
     println!("ENGINE-ERROR C19: {e}");
     return 2;
   }
+  for k in ["P core 0", "A core 1", "F commented 0", "VJ 0 0", "VC 0 0", "PV core 3"] {
+    if let Some(v) = reference.obs.get(k) {
+      run.sample(json!({"observation": k, "value_in_the_all_features_build": trunc(v)}));
+    }
+  }
   run.states += 1; // the reference
   run.traces = run.states;
   run.evaluations = compared;
